@@ -783,11 +783,41 @@ class RandomFacade:
 
 # ---- scipy.sparse
 
+class SymDense(_np.ndarray):
+    """Dense object array standing in for a sparse matrix with symbolic entries (a few sparse-matrix methods)."""
+
+    def sqrt(self):
+        out = _np.asarray(_SQRT(_np.asarray(self))).view(SymDense)
+        return out
+
+    def toarray(self):
+        return _np.asarray(self)
+
+    def todense(self):
+        return _np.asarray(self)
+
+    def tocsr(self):
+        return self
+
+    def tocsc(self):
+        return self
+
+    def diagonal(self, *a, **k):
+        return _np.asarray(self).diagonal(*a, **k)
+
+    def __matmul__(self, other):
+        if _sp.sparse.issparse(other):
+            return (_np.asarray(self) @ other.toarray().astype(object)).view(SymDense)
+        if not isinstance(other, _np.ndarray) and not is_sym(other) and hasattr(other, '__rmatmul__'):
+            return NotImplemented      # e.g. a cuqi Operator: let it handle the product, as a sparse matrix would
+        return _np.asarray(self) @ other
+
+
 def _sp_diags(diagonals, offsets=0, shape=None, format=None, dtype=None):
     if has_sym(diagonals):
         _used('sparse.diags (dense object array on symbolic data)')
         if _np.isscalar(offsets) and offsets == 0 and isinstance(diagonals, _np.ndarray) and diagonals.ndim == 1:
-            return _np.diag(diagonals)
+            return _np.diag(diagonals).view(SymDense)
         ds = list(diagonals)
         offs = [offsets] if _np.isscalar(offsets) else list(offsets)
         if shape is None:
